@@ -72,7 +72,7 @@ def git_blame_porcelain(world, repo, rev, path, extra=()):
     for ln in r.out.split("\n"):
         if cur is None:
             parts = ln.split(" ")
-            if len(parts) >= 3 and len(parts[0]) == 40:
+            if len(parts) >= 3 and len(parts[0]) in (40, 64):
                 cur = {"sha": parts[0], "orig": int(parts[1]), "final": int(parts[2]), "file": None}
             continue
         if ln.startswith("\t"):
